@@ -196,8 +196,55 @@ def check_extended(ck, P, rid_cascade, rid_content):
             ok = False
     for x in _address_uses(f.root, (a, b)):
         ck.violated(rid_content, "address:%s" % x.name, x.where, "comparator uses the address of an event (%s), which is not content" % X.show(x.parent), cfgname)
-    ck.expect(rid_cascade, len(stages), 2, "comparator stages")
+    # the "sign of a difference" idiom: k(a) - k(b) stored in a signed integer and compared with 0 is an order only if the difference
+    # cannot wrap, i.e. both keys are narrower than the variable.  Two full-width 32-bit keys are not.
+    diffs = _wrapping_differences(f)
+    for node, lt, rt, into in diffs:
+        ck.violated(rid_cascade, "difference:%s" % X.show(node)[:40], node.where, "the order of two events is taken from the sign of `%s` (%s - %s) kept in %s: for keys more than 2^31 apart the "
+                    "difference wraps, so a < b < c < a is possible — not transitive, heaps and straggler detection become inconsistent" % (X.show(node)[:60], lt, rt, into), cfgname)
+    if not diffs:
+        ck.expect(rid_cascade, len(stages), 2, "comparator stages")
     return ok
+
+
+def _wrapping_differences(f):
+    out = []
+    signed_ints = {}
+    for v in f.walk():
+        if v.k == "VarDecl" and v.d.get("ti") and v.d["ti"][1] and v.d["ti"][0] <= 32:
+            signed_ints[v.did] = v
+    def full_width(e):
+        e = X.strip(e, casts=True)
+        ti = e.d.get("ti")
+        if not ti or ti[0] < 32:
+            return None
+        # masked with a small constant / a comparison result: narrow
+        if e.k == "BinaryOperator" and e.op == "&" and any((X.const_int(c) is not None and X.const_int(c) < (1 << 30)) for c in e.children):
+            return None
+        if e.k == "BinaryOperator" and e.op in ("<", ">", "<=", ">=", "==", "!="):
+            return None
+        if X.const_int(e) is not None:
+            return None
+        if e.k == "CallExpr":
+            return None
+        return e.t or "%d-bit" % ti[0]
+    for n in f.walk():
+        rhs = None
+        tgt = None
+        if n.k == "VarDecl" and n.did in signed_ints and n.children:
+            rhs, tgt = n.children[-1], n
+        elif n.k == "BinaryOperator" and n.op == "=":
+            t = X.strip(n.children[0])
+            if t.k == "DeclRefExpr" and t.did in signed_ints:
+                rhs, tgt = n.children[1], signed_ints[t.did]
+        if rhs is None:
+            continue
+        e = X.strip(rhs, casts=True)
+        if e.k == "BinaryOperator" and e.op == "-":
+            lt, rt = full_width(e.children[0]), full_width(e.children[1])
+            if lt and rt:
+                out.append((e, lt, rt, "`%s %s`" % (tgt.t, tgt.name)))
+    return out
 
 
 def _content_field(ck, rid, P, rec, name, node, anti, cfgname):
